@@ -29,10 +29,20 @@ type pfAvail struct {
 
 // parse a marshalled response / multistatus with the independent reader
 type parsedResp struct {
-	hrefs []string
-	stats map[int][][3]string // code -> (ns, local, text or "~")
-	order []int
-	dup   bool // a status appearing in two propstats
+	status int // the response's own DAV:status (0 = none)
+	hrefs  []string
+	stats  map[int][][3]string // code -> (ns, local, text or "~")
+	order  []int
+	dup    bool // a status appearing in two propstats
+}
+
+func (pr parsedResp) has200(ns, local string) bool {
+	for _, it := range pr.stats[200] {
+		if it[0] == ns && it[1] == local {
+			return true
+		}
+	}
+	return false
 }
 
 func parseResponseNode(n *xNode) parsedResp {
@@ -44,6 +54,10 @@ func parseResponseNode(n *xNode) parsedResp {
 		switch c.local {
 		case "href":
 			pr.hrefs = append(pr.hrefs, textOf(c))
+		case "status":
+			if f := strings.Fields(textOf(c)); len(f) >= 2 {
+				pr.status, _ = strconv.Atoi(f[1])
+			}
 		case "propstat":
 			code := -1
 			var items [][3]string
@@ -381,7 +395,7 @@ func famPfScope(o *Out, r *RNG, thorough bool) {
 	for _, prefix := range []string{"", "/dav", "/a/b"} {
 		h := hier{prefix: prefix, principal: prefix + "/u/", homeSet: prefix + "/u/cal/",
 			colls: []string{prefix + "/u/cal/one/", prefix + "/u/cal/two/", prefix + "/u/cal/empty/"},
-			objs: map[string][]string{prefix + "/u/cal/one/": {prefix + "/u/cal/one/a.ics", prefix + "/u/cal/one/b c.ics"}, prefix + "/u/cal/two/": {prefix + "/u/cal/two/z.ics"}}}
+			objs:  map[string][]string{prefix + "/u/cal/one/": {prefix + "/u/cal/one/a.ics", prefix + "/u/cal/one/b c.ics"}, prefix + "/u/cal/two/": {prefix + "/u/cal/two/z.ics"}}}
 		targets := []struct{ level, path string }{
 			{"root", prefix + "/"}, {"root", prefix},
 			{"principal", h.principal}, {"principal", prefix + "/other/"}, {"principal", prefix + "/u"},
